@@ -1,6 +1,7 @@
 package core
 
 import (
+	"go/constant"
 	"go/token"
 	"go/types"
 	"testing"
@@ -44,6 +45,23 @@ func rng(d time.Duration) (time.Duration, bool) {
 	return 0, false
 }
 
+var states = [...]int{2, 1, 3}
+var methods = map[string]struct{}{"GET": {}, "PUT": {}}
+var weights = map[string]int{"a": 1, "b": 5}
+var dirty = map[string]int{"a": 1}
+
+func soil() { dirty["b"] = 2 }
+
+func state(code int) (int, bool) {
+	if code < 0 || code >= len(states) {
+		return 0, false
+	}
+	return states[code], true
+}
+func valid(m string) bool { _, ok := methods[m]; return ok }
+func weight(k string) int { return weights[k] + len(weights) }
+func viaDirty(k string) int { return dirty[k] }
+
 func viaMutable(i int) int { return mutable[i] }
 func forever(n int) int    { for { n++ } }
 func wraps(x int8) int8     { return x + 100 }
@@ -73,6 +91,36 @@ func TestEval(t *testing.T) {
 	}
 	if _, ok := p.Eval(pkg.Func("viaMutable"), EvalInt(0)); ok {
 		t.Errorf("a table that is written elsewhere was evaluated")
+	}
+	for code, want := range map[int64]int64{0: 2, 1: 1, 2: 3} {
+		res, ok := p.Eval(pkg.Func("state"), EvalInt(code))
+		if n, _ := AsInt(res[0]); !ok || n != want {
+			t.Errorf("state(%d) = %v (ok=%v), want %d", code, res, ok, want)
+		}
+	}
+	if res, ok := p.Eval(pkg.Func("state"), EvalInt(3)); !ok {
+		t.Errorf("state(3) not evaluable")
+	} else if b, _ := AsBool(res[1]); b {
+		t.Errorf("state(3) reported in range")
+	}
+	for m, want := range map[string]bool{"GET": true, "PUT": true, "POST": false} {
+		res, ok := p.Eval(pkg.Func("valid"), constant.MakeString(m))
+		if b, _ := AsBool(res[0]); !ok || b != want {
+			t.Errorf("valid(%q) = %v (ok=%v), want %v", m, res, ok, want)
+		}
+	}
+	if res, ok := p.Eval(pkg.Func("weight"), constant.MakeString("b")); !ok {
+		t.Errorf("weight not evaluable")
+	} else if n, _ := AsInt(res[0]); n != 7 {
+		t.Errorf("weight(b) = %d, want 7", n)
+	}
+	if res, ok := p.Eval(pkg.Func("weight"), constant.MakeString("zz")); !ok {
+		t.Errorf("weight(zz) not evaluable")
+	} else if n, _ := AsInt(res[0]); n != 2 {
+		t.Errorf("weight(zz) = %d, want 2", n)
+	}
+	if _, ok := p.Eval(pkg.Func("viaDirty"), constant.MakeString("a")); ok {
+		t.Errorf("a map that is written elsewhere was evaluated")
 	}
 	if _, ok := p.Eval(pkg.Func("forever"), EvalInt(0)); ok {
 		t.Errorf("non-terminating function evaluated")
